@@ -15,7 +15,7 @@ class IncSolver(object):
         s.send('(set-option :print-success false)\n(set-option :produce-models true)\n(set-option :produce-unsat-cores true)\n(set-option :smt.core.minimize true)\n(set-logic %s)\n' % logic)
         s.cache = {}
         s.per_check_ms = per_check_ms; s.cur_timeout = None
-        s.nchecks = 0; s.nunsat = 0; s.time = 0.0; s.nunknown = 0
+        s.nchecks = 0; s.nunsat = 0; s.time = 0.0; s.nunknown = 0; s.nretries = 0; s.retry_factor = 8
         s.log = []; s.qtime = 0.0; s.nqueries = 0
     def send(s, text):
         s.p.stdin.write(text)
@@ -68,6 +68,13 @@ class IncSolver(object):
         lits = e.args if e.op == 'and' else (e,)
         for l in lits: s.define(l)
         ans = s._ask_many(lits)
+        if ans not in ('sat', 'unsat'):
+            # a timed-out check keeps the state (sound), but states kept under infeasible guards inflate loop counters and allocation
+            # counts of the feasible states they are merged with (seen under heavy machine load: spurious 'unwind'/'bound' obligations),
+            # so an unknown answer is asked again with a much longer limit before it is accepted
+            s.set_timeout(s.per_check_ms * s.retry_factor)
+            ans = s._ask_many(lits)
+            s.nretries += 1
         s.nchecks += 1
         r = ans != 'unsat'
         if ans == 'unsat':
